@@ -45,7 +45,14 @@ def cases(rng, tier):
         cfg = rng.choice(shardprop.CFGS)
         ntypes, nctx = rng.range(1, 2), rng.range(1, 2)
         cap = cfg["fill_factor"] * cfg["event_per_zone"]
-        if i % 2 == 0:
+        if i % 8 == 7:
+            # kill with a partly filled memtable/WAL file, restart, cross one or two flush boundaries, kill again
+            ops = [("S", rng.below(ntypes), rng.below(nctx)) for _ in range(rng.range(1, max(1, cap - 1)))]
+            ops += [("R",), ("O",)]
+            ops += [("S", rng.below(ntypes), rng.below(nctx)) for _ in range(rng.range(cap, 2 * cap + 1))]
+            ops += [("O",), ("R",), ("O",)]
+            out.append(shardprop.mk_case("partial-wal-restart", cfg, ntypes, nctx, ops))
+        elif i % 2 == 0:
             pre = shardprop.gen_history(rng, rng.range(0, 2 * cap + 2), ntypes, nctx, p_flush=8, p_restart=8, p_obs=0)[:-1]
             point = CRASH_POINTS[(i // 2) % len(CRASH_POINTS)] if tier == "quick" else rng.choice(CRASH_POINTS)
             ops = pre + [("X", point, rng.range(1, 2))]
